@@ -97,6 +97,30 @@ func (p *Package) Decls() ([]ast.Decl, error) {
 
 			if p.Name != "" {
 				decl.DeclaredAtom.Predicate.Symbol = fmt.Sprintf("%s.%s", p.Name, decl.DeclaredAtom.Predicate.Symbol)
+				// A merge descriptor names a predicate; if this package defines
+				// it, it is known under its qualified name.
+				for i, descr := range decl.Descr {
+					if descr.Predicate.Symbol != ast.DescrMergePredicate || len(descr.Args) != 2 {
+						continue
+					}
+					c, ok := descr.Args[1].(ast.Constant)
+					if !ok || c.Type != ast.StringType {
+						continue
+					}
+					name, err := c.StringValue()
+					if err != nil {
+						continue
+					}
+					if _, ok := definedIdentifier[ast.PredicateSym{Symbol: name, Arity: 3}]; !ok {
+						continue
+					}
+					qualified := descr
+					qualified.Args = []ast.BaseTerm{descr.Args[0], ast.String(fmt.Sprintf("%s.%s", p.Name, name))}
+					newDescr := make([]ast.Atom, len(decl.Descr))
+					copy(newDescr, decl.Descr)
+					newDescr[i] = qualified
+					decl.Descr = newDescr
+				}
 			}
 			for i, bd := range decl.Bounds {
 				for j, b := range bd.Bounds {
